@@ -20,6 +20,7 @@
 -/
 import Lean.Data.Json
 import Yabgp.Model.ExtComm
+import Yabgp.Model.Construct.ExtCommGuard
 import Yabgp.Spec.RfcExtComm
 
 namespace Yabgp.XcGlue
@@ -141,7 +142,7 @@ def dispatchXc (st : XcState) (j : Json) : Except String (XcState × Json) := do
               | .error e => errJson e)
   | "extcomm.construct" => do
     let items ← (← getArr j "items").mapM readItem
-    pure (st, match construct items with
+    pure (st, match constructR items with
               | .ok b => jobj [("hex", jhex b)]
               | .retNone => jobj [("none", Json.bool true)]
               | .raises => jraise)
@@ -150,7 +151,7 @@ def dispatchXc (st : XcState) (j : Json) : Except String (XcState × Json) := do
     pure (st, trJson (fun items => jobj [("ok", jarr (items.map itemJson))]) (translate p (← getTexts j "texts")))
   | "extcomm.rest" => do
     let p ← readPeer j
-    pure (st, trJson (fun b => jobj [("hex", jhex b)]) (rest p (← getTexts j "texts")))
+    pure (st, trJson (fun b => jobj [("hex", jhex b)]) (restR p (← getTexts j "texts")))
   | "extcomm.tables" =>
     pure (st, jobj [("str_dict", jarr (strDict.map fun e => jarr [jnat e.1, Json.str e.2])),
                     ("dict", jarr (dict.map fun e => jarr [Json.str e.1, jnat e.2])),
